@@ -582,6 +582,41 @@ func (w *World) run(op *Op) (interface{}, error) {
 	case "SetMaskAt":
 		return nil, w.in(op, 0).SetMaskAt(op.N != 0, w.arg("coords", op.I)...)
 
+	case "SetMaskAtIndex":
+		return nil, w.in(op, 0).SetMaskAtIndex(op.F != 0, op.N)
+	case "MaskFromSlice":
+		// the caller's slice of flags (ints here): copied into the mask, never kept
+		w.in(op, 0).MaskFromSlice(w.arg("maskflags", op.I))
+		return nil, nil
+	case "SVD":
+		s, u, v, err := w.in(op, 0).SVD(op.N&1 != 0, op.N&2 != 0)
+		if err != nil {
+			return nil, err
+		}
+		h := uint64(fnvOff)
+		for _, x := range []*tensor.Dense{s, u, v} {
+			if x != nil {
+				h = fnvU64(h, snapOf(x).All())
+			}
+		}
+		if s == nil {
+			return h, nil
+		}
+		return s, nil
+	case "CSRDense":
+		// I = rows, cols, n, then n row coordinates and n column coordinates (the caller's slices)
+		r, c, n := op.I[0], op.I[1], op.I[2]
+		xs := w.arg("coords", op.I[3:3+n])
+		ys := w.arg("coords", op.I[3+n:3+2*n])
+		var cs *tensor.CS
+		if op.N&1 == 0 {
+			cs = tensor.CSRFromCoord(tensor.Shape{r, c}, xs, ys, mkBacking(op.S, n, int(op.F)))
+		} else {
+			cs = tensor.CSCFromCoord(tensor.Shape{r, c}, xs, ys, mkBacking(op.S, n, int(op.F)))
+		}
+		return cs.Dense(), nil
+	case "DenseDiag":
+		return tensor.New(tensor.AsDenseDiag(mkBacking(op.S, op.N, int(op.F)))), nil
 	case "MaskFromDense":
 		w.in(op, 0).MaskFromDense(denses(w, op, 1)...)
 		return nil, nil
@@ -837,7 +872,7 @@ func (w *World) dests(op *Op) []int {
 	}
 	switch op.Name {
 	case "SetAt", "T", "UT", "Transpose", "Memset", "Zero", "Reshape", "ResetMask", "HardenMask", "SoftenMask",
-		"FilledInplace", "SetMaskAt", "ReturnTensor", "Drop":
+		"FilledInplace", "SetMaskAt", "SetMaskAtIndex", "MaskFromSlice", "ReturnTensor", "Drop":
 		d = append(d, op.In[0])
 	case "RollAxis":
 		if op.Mode == "unsafe" {
